@@ -17,7 +17,7 @@ def oracle_serial(r: dict) -> list[str]:
             continue
         g = lifecycle.group(rep)
         toks = rep.split()
-        if op == 'close' or (op.startswith('xclose') and any(t.startswith(('ret:close', 'blocked:close')) for t in toks)):
+        if op == 'close' or (op.startswith(('xclose', 'kclose')) and any(t.startswith(('ret:close', 'blocked:close')) for t in toks)):
             if closed_called and close_returned and op == 'close':
                 extra = [t for t in toks if not t.startswith(('ret:close', 'st=', 'ce=', 'rs=', 'fe=', 'lc=', 'sd='))]
                 if extra:
